@@ -438,7 +438,7 @@ var corpus = []struct{ dialect, stmt string }{
 	{"pg", "select a from t where (a or b) is null"},
 	{"pg", "select a from t where b between (b = 1 or c = 2) and 5"},
 	{"pg", "select a from t order by null desc"},
-	// fixed (repo-patches/51): the length of VARCHAR(n) in CAST / CONVERT was dropped by the grammar
+	// fixed (repo-patches/70): the length of VARCHAR(n) in CAST / CONVERT was dropped by the grammar
 	{"my", "select cast(a as varchar(10)) from t"},
 	{"pg", "select convert(a, varchar(10)) from t"},
 	// known (pg_query deparser): an AND/OR/NOT as the argument of a CAST
